@@ -3,39 +3,9 @@
    classes, the regenerated list of entry points, the prototypes of ppl_c.h): that is a proof, and it is
    re-checked on every run against the facts of the current tree. *)
 From Coq Require Import List String ZArith Bool Lia.
-Require Import PPLV.CIface.Exn PPLV.CIface.Entries PPLV.gen.Facts_CIface.
+Require Import PPLV.CIface.Exn PPLV.CIface.Entries PPLV.CIface.Spec PPLV.gen.Facts_CIface.
 Import ListNotations.
 Open Scope string_scope.
-
-(* ---- the documented table (ppl_c_header.h, enum ppl_enum_error_code; C_interface.dox) ---------- *)
-
-Definition documented (c : cls) : option ecode :=
-  match c with
-  | BadAlloc => Some ERROR_OUT_OF_MEMORY
-  | InvalidArgument => Some ERROR_INVALID_ARGUMENT
-  | DomainError => Some ERROR_DOMAIN_ERROR
-  | LengthError => Some ERROR_LENGTH_ERROR
-  | LogicError => Some ERROR_LOGIC_ERROR               (* any other logic_error *)
-  | OverflowError => Some ARITHMETIC_OVERFLOW
-  | RuntimeError => Some ERROR_INTERNAL_ERROR          (* any other runtime_error *)
-  | Exception => Some ERROR_UNKNOWN_STANDARD_EXCEPTION (* any other std::exception *)
-  | Timeout | DetTimeout => Some TIMEOUT_EXCEPTION
-  | _ => None
-  end.
-
-(* code documented for an exception of class c: that of its nearest documented ancestor; an
-   exception with no documented ancestor is "completely unexpected" *)
-Definition documented_code (c : cls) : ecode :=
-  match nearest documented (ancestors c) with Some k => k | None => ERROR_UNEXPECTED_ERROR end.
-
-(* documented values of the enumerators *)
-Definition documented_value (c : ecode) : Z :=
-  match c with
-  | ERROR_OUT_OF_MEMORY => -2 | ERROR_INVALID_ARGUMENT => -3 | ERROR_DOMAIN_ERROR => -4
-  | ERROR_LENGTH_ERROR => -5 | ARITHMETIC_OVERFLOW => -6 | STDIO_ERROR => -7 | ERROR_INTERNAL_ERROR => -8
-  | ERROR_UNKNOWN_STANDARD_EXCEPTION => -9 | ERROR_UNEXPECTED_ERROR => -10 | TIMEOUT_EXCEPTION => -11
-  | ERROR_LOGIC_ERROR => -12
-  end%Z.
 
 (* ---- the chain used by the entry points ------------------------------------------------------- *)
 
